@@ -241,11 +241,109 @@ def virtual_levels(facts, cls):
     return out
 
 
+N = sympy.Symbol("n", integer=True)
+
+
+def nval(facts, n, env):
+    """integer expression in the number of extra levels n; `a << b` is a * 2**b"""
+    n = strip(n)
+    k = n.get("k")
+    if k == "IntegerLiteral":
+        return sympy.Integer(n["val"])
+    if k == "FloatingLiteral":
+        return sympy.nsimplify(n["val"])
+    if k == "UnaryOperator" and n.get("op") == "-":
+        return -nval(facts, kids(n)[0], env)
+    if (k.endswith("CastExpr") or k in ("ParenExpr", "CXXUnresolvedConstructExpr", "CXXConstructExpr", "InitListExpr")) and len(kids(n)) == 1:
+        return nval(facts, kids(n)[0], env)
+    if k == "BinaryOperator":
+        a, b = [nval(facts, c, env) for c in kids(n)]
+        op = n.get("op")
+        if op == "<<":
+            return a * 2 ** b
+        if op in ("+", "-", "*"):
+            return {"+": a + b, "-": a - b, "*": a * b}[op]
+    if k == "DeclRefExpr" and n.get("did") in env:
+        return env[n["did"]]
+    if k in ("CallExpr", "CXXMemberCallExpr") and tbf.callee_name(n) in env:
+        return env[tbf.callee_name(n)]
+    raise AnalysisBroken("%s: cannot evaluate '%s' as a function of the number of extra levels" % (facts.loc(n), facts.ntext(n)[:80]))
+
+
+def extension_geometry(facts, cls, res):
+    """C10.4: the extended (virtual) tree places the original box at its level (height - 2), so every
+    extended box width must be  original width x 2^(extended height - 2)  - a multiplicative update of
+    the original widths by exactly that factor, on every branch of the extra-level parameter"""
+    R = "C10.4.extension-geometry"
+    for wname, hname in (("GetExtendedBoxWidth", "getExtendedTreeHeight"), ("GetExtendedBoxWidthBoundary", "getExtendedTreeHeightBoundary")):
+        wf = [m for m in facts.methods_of(cls) if m["name"] == wname]
+        hf = [m for m in facts.methods_of(cls) if m["name"] == hname]
+        if len(wf) != 1 or len(hf) != 1:
+            raise AnalysisBroken("%s::%s / %s not found" % (cls, wname, hname))
+        wf, hf = wf[0], hf[0]
+        hn = [p for p in hf["params"] if p["t"].replace("const ", "") in ("long", "int")]
+        hr = [r for r in walk(tbf.body(hf)) if r.get("k") == "ReturnStmt" and kids(r)]
+        if len(hn) != 1 or len(hr) != 1:
+            raise AnalysisBroken("%s::%s: form not recognised" % (cls, hname))
+        height = nval(facts, kids(hr[0])[0], {hn[0]["did"]: N})
+        wn = [p for p in wf["params"] if p["t"].replace("const ", "") in ("long", "int")]
+        if len(wn) != 1:
+            raise AnalysisBroken("%s::%s: extra-level parameter not found" % (cls, wname))
+        env = {wn[0]["did"]: N, hname: height}
+        fm = stages.FnModel(facts, wf)
+        rets = [r for r in walk(fm.body) if r.get("k") == "ReturnStmt" and kids(r)]
+        rv = strip(kids(rets[-1])[0]) if rets else None
+        rd = fm.decls.get(rv.get("did")) if rv is not None else None
+        f = tbf.rel(facts.path_of(wf))
+        if rd is None or not kids(rd) or not fm.origin(kids(rd)[0]).endswith(".getBoxWidths()"):
+            res.violation(R, f, wf["qname"], "provenance", wf["l"][1], "the extended box widths are not derived from the original configuration's box widths")
+            continue
+        ups = []
+        for x in walk(fm.body):
+            if x.get("k") in ("BinaryOperator", "CompoundAssignOperator") and x.get("op", "").endswith("=") and x.get("op") not in ("==", "!=", "<=", ">="):
+                l = strip(kids(x)[0])
+                if l.get("k") in ("ArraySubscriptExpr", "CXXOperatorCallExpr") and strip(kids(l)[-2]).get("did") == rd["did"]:
+                    ups.append(x)
+        if len(ups) != 1:
+            raise AnalysisBroken("%s::%s: %d updates of the returned widths (1 confirmed by reading)" % (cls, wname, len(ups)))
+        u = ups[0]
+        want = 2 ** (height - 2)
+        if u["op"] != "*=":
+            res.instance(R, "%s::%s" % (cls, wname), facts.loc(u), facts.ntext(u))
+            res.violation(R, f, wf["qname"], "update-form", u["l"][1],
+                          "the extended width is set with `%s` instead of scaling the original width: for any box whose width is not 1 the images are displaced by the wrong multiples" % facts.ntext(u)[:80])
+            continue
+        # factor, branch by branch
+        fac = strip(kids(u)[1])
+        fd = fm.decls.get(fac.get("did")) if fac.get("k") == "DeclRefExpr" else None
+        e = strip(kids(fd)[0]) if fd is not None and kids(fd) else fac
+        while e.get("k", "").endswith("CastExpr") or e.get("k") == "ParenExpr":
+            e = strip(kids(e)[0])
+        branches_ = []
+        if e.get("k") == "ConditionalOperator":
+            c, a, b = kids(e)
+            c = strip(c)
+            if not (c.get("k") == "BinaryOperator" and c.get("op") == "==" and strip(kids(c)[0]).get("did") == wn[0]["did"]):
+                raise AnalysisBroken("%s: branch condition of the width factor not recognised" % facts.loc(e))
+            cv = int(nval(facts, kids(c)[1], {}))
+            branches_.append(("n == %d" % cv, nval(facts, a, env).subs(N, cv), want.subs(N, cv)))
+            branches_.append(("n != %d" % cv, nval(facts, b, env), want))
+        else:
+            branches_.append(("all n", nval(facts, e, env), want))
+        for name, got, exp in branches_:
+            ok = sympy.simplify(got - exp) == 0
+            res.instance(R, "%s::%s %s" % (cls, wname, name), facts.loc(u), "factor %s, 2^(height-2) = %s" % (got, sympy.simplify(exp)))
+            if not ok:
+                res.violation(R, f, wf["qname"], "factor:" + name, u["l"][1],
+                              "for %s the extended width factor is %s but the extended tree height %s places the original box at level height-2, i.e. factor %s" % (name, got, height, sympy.simplify(exp)))
+
+
 def run(res, tier):
     facts = tbf.scan("core")
     res.units.append("umbrella TU 'core': TbfAlgorithmPeriodicTopTree, TbfAlgorithmPeriodicTopTreeTsm, TbfMortonSpaceIndex::getNbInteractionsPerCell")
     res.rule("C10.1 per branch (-1, 0, >=1 extra levels): hi - lo + 1 == repetitions per dimension (identity in p=2^n), interval contains 0, total = count^Dim")
     res.rule("C10.2 (window width)^Dim - (core)^Dim == declared extent of the position array for every transfer window")
+    res.rule("C10.4 extended box width = original width x 2^(extended tree height - 2), as a multiplicative update, on every branch")
     res.rule("C10.3 the single-tree and target/source top trees agree on formulas, windows and virtual-level loops")
     morton_nb = morton_interactions(facts)
     res.instance("C10.2.window-extent", "getNbInteractionsPerCell", "src/spacial/tbfmortonspaceindex.hpp", "%d^Dim - %d^Dim" % morton_nb)
@@ -254,6 +352,7 @@ def run(res, tier):
         f1 = repetition_formulas(facts, cls, res)
         w = windows(facts, cls, res, morton_nb)
         v = virtual_levels(facts, cls)
+        extension_geometry(facts, cls, res)
         summ[cls] = {"formulas": f1, "windows": w, "virtual": v}
     a, b = summ[CLASSES[0]], summ[CLASSES[1]]
     R = "C10.3.sibling-agreement"
